@@ -28,6 +28,7 @@ func c03prop(r *simkit.Run) {
 	inDomain := rapid.IntRange(0, 9).Draw(rt, "domain") != 0
 	maxAvg := int64(rapid.SampledFrom([]int{3, 10, 50, 1000}).Draw(rt, "avg-scale"))
 	rates := drawRates(rt, inDomain, maxAvg)
+	drawRateSource(rt)
 	nsrc := rapid.IntRange(1, 8).Draw(rt, "sources")
 	capacity := nsrc + rapid.IntRange(0, 3).Draw(rt, "spare-capacity")
 	_, unfreeze := freeze(rt)
